@@ -87,14 +87,14 @@ def coercion_cases():
     """the type pre-filter works on str(type) while the matcher (strict mode) does not: a rule the pre-filter lets through but the
     matcher rejects (request type 1 vs rule type "1", a type list holding a non-string) must not make its tier eligible."""
     base = {"sid": "u", "roles": [], "sattrs": {}, "action": "read", "rid": "1", "rattrs": {"level": 1}, "ctx": {}}
-    for rt in ("1", ["doc", 7], ["1", "doc"], 1):
+    for rt in ("1", ["doc", 7], ["1", "doc"], 1, ["doc", "*"], ["*", "1"]):
         for extra in ({}, {"id": "1"}, {"attrs": {"level": 1}}, {"id": 1}, {"attrs": {"level": "1"}}):
             for e1, e2 in (("deny", "permit"), ("permit", "deny")):
                 rules = [{"id": "spec", "effect": e1, "actions": ["read"], "resource": {"type": rt, **extra}},
                          {"id": "wild", "effect": e2, "actions": ["*"], "resource": {"type": "*"}},
                          {"id": "typed", "effect": e2, "actions": ["read"], "resource": {"type": "doc"}}]
                 for algo in gen.ALGOS:
-                    for qt in (1, "1", 7, "doc", "7", None, True):
+                    for qt in (1, "1", 7, "doc", None):
                         for strict in (False, True):
                             for k in (2, 3):
                                 yield {"algorithm": algo, "rules": rules[:k]}, {**base, "rtype": qt}, {"strict": strict}
